@@ -426,11 +426,11 @@ func signOpen(text string, sids, vids []string) (string, string) {
 	return "", "not-opened"
 }
 
-var textAlpha = []string{"a", "\n", "— ", " ", "é", "\x01", "\xff"}
+var textAlpha = []string{"a", "\n", "— ", " ", "é", "\x01", "\xff", "\ufffd"}
 
 func Run(r *fw.Run) {
 	Lt := r.Pick(5, 6)
-	r.Bounds["text_alphabet"] = []string{"a", "\\n", "em-dash+space", "space", "é", "0x01", "0xFF"}
+	r.Bounds["text_alphabet"] = []string{"a", "\\n", "em-dash+space", "space", "é", "0x01", "0xFF", "U+FFFD (validly encoded)"}
 	r.Bounds["text_max_len"] = Lt
 	r.Bounds["keys"] = "k1, k2 (distinct names), k3 (k1's name, other key), bad (garbage under k1's identity), dup (second verifier for k1's name+hash)"
 	r.Rule = "(a) every text over a 7-symbol alphabet up to text_max_len and every sequence of <=4 line atoms x every subset of signers {k1,k2,k3,bad} (plus a duplicated signer) x every subset of verifiers {k1,k2,k3} (plus the ambiguous pair): Sign then Open; (b) every message assembled from <=5 line atoms (incl. malformed and duplicate signature lines, 99/100/101 signatures): Open vs the documented format; (c) every byte-level mutation (flip low/high bit, replace by newline/space, delete, insert newline/'a') at every position and line-level swap/duplicate/drop of signed messages. Monitor: every verified signature has a recorded verifier call over exactly the returned text that returned true, confirmed by an independent ed25519.Verify. non-trivial = Open succeeded"
